@@ -128,6 +128,11 @@ def check(run):
         'or behaviour for huge/subnormal arguments other than the periodic range.')
     run.assumptions = ['fmod(x, p) has the sign of x and |fmod| < p', 'raysect clamp(v, lo, hi) clamps v into [lo, hi]',
                        'numpy.linspace includes both end points by default']
+    # shape normalisation: private helpers expanded in place (extract-helper refactorings do not change what is decided)
+    for c in list(prog.classes.values()):
+        if c.name in EXPECT or c.name == 'Swizzle3D':
+            prog.normalise_class(c, propagate=False)
+    prog.normalise_module(prog.modules['cherab.core.math.samplers'], propagate=False)
     _r1(run, prog)
     _r2(run, prog)
     _r3(run, prog)
@@ -497,7 +502,11 @@ def _r3(run, prog):
             return None if ok else 'loop over %s runs %s times' % (arr, c)
 
         arrs = []
+        from ..inline import resolver
+        res = resolver(fn)
         for k, a in enumerate(call.args):
+            if isinstance(a, ast.Name) and res.single(a.id) is not None and isinstance(res.single(a.id).value, ast.Subscript):
+                a = res.single(a.id).value        # hoisted read of a coordinate: x_i = x[i]
             if not (isinstance(a, ast.Subscript) and isinstance(a.value, ast.Name) and isinstance(a.slice, ast.Name)):
                 problems.append(('argument-shape', 'argument %d is %s' % (k, norm(a))))
                 argvars.append(None)
@@ -545,7 +554,10 @@ def _r3(run, prog):
             else:
                 if idx != want_idx:
                     problems.append(('store-index', 'output stored at %s, expected %s' % (idx, want_idx)))
-                if st.value is not call:
+                sv = st.value
+                if isinstance(sv, ast.Name) and res.single(sv.id) is not None:
+                    sv = res.single(sv.id).value
+                if sv is not call:
                     problems.append(('store-value', 'stored value is %s' % norm(st.value)))
         if vector:
             tail = {k: v.split('.')[-1] for k, v in comps.items()}
